@@ -166,6 +166,9 @@ mod utils;
 pub mod params;
 pub mod resolvers;
 pub mod types;
+#[cfg(feature = "verif-hooks")]
+#[doc(hidden)]
+pub mod verif_hooks;
 
 pub use crate::{
     builder::{Builder, Keypair},
